@@ -7,10 +7,13 @@ import (
 	"net"
 	"net/netip"
 	"os"
+	"os/exec"
+	"strings"
 	"testing"
 	"time"
 
 	"github.com/mdlayher/corerad/internal/config"
+	"github.com/mdlayher/corerad/internal/netstate"
 	"github.com/mdlayher/corerad/internal/plugin"
 	"github.com/mdlayher/corerad/internal/system"
 	"github.com/mdlayher/corerad/internal/vfh"
@@ -75,7 +78,22 @@ func TestVerifNetns(t *testing.T) {
 	mm := NewMetrics(metricslite.NewMemory(), "v", time.Time{}, st, []config.Interface{cfg})
 	cctx := NewContext(nil, mm, st)
 	d := system.NewDialer("vf0", st, system.Advertise, nil)
-	a := NewAdvertiser(cctx, cfg, d, nil, func() bool { return true })
+	// the link watcher, wired as Server.BuildTasks does
+	lw := netstate.NewWatcher()
+	watchC := lw.Subscribe("vf0", netstate.LinkDown)
+	wctx, wcancel := context.WithCancel(context.Background())
+	defer wcancel()
+	go func() { _ = lw.Watch(wctx) }()
+	time.Sleep(200 * time.Millisecond)
+	autoconf := func() string {
+		b, err := os.ReadFile("/proc/sys/net/ipv6/conf/vf0/autoconf")
+		if err != nil {
+			return "?"
+		}
+		return strings.TrimSpace(string(b))
+	}
+	ac0 := autoconf()
+	a := NewAdvertiser(cctx, cfg, d, watchC, func() bool { return true })
 	ctx, cancel := context.WithCancel(context.Background())
 	done := make(chan error, 1)
 	go func() { done <- a.Run(ctx) }()
@@ -194,6 +212,33 @@ func TestVerifNetns(t *testing.T) {
 		impl.S("fwd").I(lt)
 	}
 	_ = os.WriteFile("/proc/sys/net/ipv6/conf/vf0/forwarding", []byte("1"), 0o644)
+	// autoconf: while the advertiser holds its connection the interface's autoconfiguration is off
+	impl.S("autoconf").S(ac0).S(autoconf())
+	// relink: the link goes down (the watcher tells the advertiser, the task is torn down and
+	// re-dialled with back-off while the interface is not ready) and comes back: the interface is
+	// served again — a fresh initial multicast RA with the configured lifetime reaches the host
+	if exec.Command("ip", "link", "set", "vf0", "down").Run() != nil {
+		impl.S("relink").S("ip-failed")
+	} else {
+		time.Sleep(700 * time.Millisecond)
+		for next(50*time.Millisecond) != nil { // drop what was in flight
+		}
+		downAutoconf := autoconf() // the connection is gone: the setting is put back meanwhile
+		_ = exec.Command("ip", "link", "set", "vf0", "up").Run()
+		got, lt := false, int64(-1)
+		start := time.Now()
+		for time.Since(start) < 8*time.Second {
+			r := next(8*time.Second - time.Since(start))
+			if r == nil {
+				break
+			}
+			if r.multicast {
+				got, lt = true, int64(r.ra.RouterLifetime/time.Second)
+				break
+			}
+		}
+		impl.S("relink").S(downAutoconf).B(got).I(lt)
+	}
 	// final: termination sends one multicast RA with lifetime 0 and Run returns nil
 	cancel()
 	finalSeen, after := false, 0
@@ -221,6 +266,8 @@ func TestVerifNetns(t *testing.T) {
 	case <-time.After(3 * time.Second):
 	}
 	impl.S("final").B(finalSeen).N(after).S(res)
+	// restored: after Run has returned the interface's autoconfiguration has its initial value
+	impl.S("restored").S(autoconf())
 	out.Line("ns 1", impl.String())
 }
 
